@@ -172,7 +172,10 @@ var verifC14Slots = []verifC14SlotRow{
 	{kind: "ReindexStatement", slot: "Name", typ: "Expr", sql: "", scope: verifC14ScopeOther, why: "the parser accepts a collation, table or index NAME only: no text puts a call here"},
 }
 
-var verifC14Markers = []string{"random()", "date('now')"}
+// the call put into the slot: quick tier the first two, thorough tier all (implicit 'now' in both
+// spellings SQLite has, randomblob)
+var verifC14Markers = []string{"random()", "date('now')", "randomblob(4)", "strftime('%s')", "unixepoch()"}
+var verifC14MarkerIsRandom = []bool{true, false, true, false, false}
 
 // the order in which the flag combinations are chosen: bit 0 RewriteRand, bit 1 RewriteTime
 var verifC14FlagSets = []int{3, 0, 1, 2}
@@ -328,7 +331,7 @@ func verifC14ExpectRewrite(row verifC14SlotRow, fn int, rwrand, rwtime bool) boo
 	if row.scope != verifC14ScopeDML || row.sql == "" {
 		return false
 	}
-	if fn == 0 {
+	if verifC14MarkerIsRandom[fn] {
 		return rwrand && !row.orderBy
 	}
 	return rwtime
@@ -337,7 +340,7 @@ func verifC14ExpectRewrite(row verifC14SlotRow, fn int, rwrand, rwtime bool) boo
 func VerifC14Traversal() {
 	verifPanicsAreViolations()
 	row := verifC14Slots[verifChoice("slot", len(verifC14Slots))]
-	fn := verifChoice("fn", len(verifC14Markers))
+	fn := verifChoice("fn", 2+(len(verifC14Markers)-2)*verifTier())
 	flags := verifC14FlagSets[verifChoice("flags", 2+2*verifTier())]
 	if row.sql == "" {
 		verifReach("no-text-reaches-the-slot")
@@ -363,7 +366,7 @@ var verifC14RenderTexts = []string{
 func VerifC14Render() {
 	verifPanicsAreViolations()
 	row := verifC14SlotRow{sql: verifC14RenderTexts[verifChoice("text", len(verifC14RenderTexts))]}
-	fn := verifChoice("fn", len(verifC14Markers))
+	fn := verifChoice("fn", 2+(len(verifC14Markers)-2)*verifTier())
 	verifC14Check(row, fn, true, true)
 }
 
@@ -409,6 +412,11 @@ func verifC14Check(row verifC14SlotRow, fn int, rwrand, rwtime bool) {
 	verifAssert("C14-walk-process-no-error", perr == nil)
 	out := st[0].Sql
 
+	if row.orderBy && fn == 2 && rwrand {
+		// randomblob() inside ORDER BY: the property names only random() for the exception; either
+		// behaviour is accepted (as in VerifC14Visit)
+		return
+	}
 	if row.kind != "" && !verifC14ExpectRewrite(row, fn, rwrand, rwtime) {
 		// the ORDER BY exception, or rewriting switched off: everything stays
 		verifReach("call-left-alone")
@@ -430,9 +438,10 @@ func verifC14Check(row verifC14SlotRow, fn int, rwrand, rwtime bool) {
 	at := strings.Index(before, callShape)
 	verifAssert("C14-walk-shape-has-the-call", at >= 0)
 	pre, suf := before[:at], before[at+len(callShape):]
-	if fn == 0 {
+	switch fn {
+	case 0:
 		verifAssert("C14-walk-only-the-call-changed", after == pre+"(NumberLit 4242)"+suf)
-	} else {
+	case 1:
 		head := pre + "(Call Name=(Ident \"date\") Args=(NumberLit "
 		verifAssert("C14-walk-only-the-call-changed", strings.HasPrefix(after, head) && strings.HasSuffix(after, "))"+suf) && len(after) > len(head)+len(suf)+2)
 		jd, ferr := strconv.ParseFloat(after[len(head):len(after)-len(suf)-2], 64)
@@ -441,6 +450,9 @@ func verifC14Check(row verifC14SlotRow, fn int, rwrand, rwtime bool) {
 			d = -d
 		}
 		verifAssert("C14-walk-now-is-the-julian-day", ferr == nil && d <= 2e-6)
+	default:
+		// the other spellings (thorough tier): what the call becomes is VerifC14Visit's business
+		verifAssert("C14-walk-only-the-call-changed", strings.HasPrefix(after, pre) && strings.HasSuffix(after, suf) && len(after) > len(pre)+len(suf))
 	}
 
 	// 3. what is replicated is the TEXT Process produced: read it again with the parser. It must say
